@@ -18,8 +18,8 @@ out.append("patch to `/repo` and undoing it). \"first\" is the verdict of the ch
 out.append("verdict after the strengthening described; a strengthened check was always re-run on the unchanged tree first and")
 out.append("had to stay silent there. None of these changes was ever committed to `/repo`.")
 out.append("")
-nf = sum(1 for _, _, s in rows if s.get("first") == "caught"); nn = sum(1 for _, _, s in rows if s.get("final") == "caught"); no = sum(1 for _, _, s in rows if s.get("final") == "obsolete")
-out.append(f"**{len(rows)} seeded changes; {nf} caught by the check as it stood when the change arrived, {nn} caught now, {no} made obsolete by a repair of the unchanged tree.**")
+nf = sum(1 for _, _, s in rows if s.get("first") == "caught"); nn = sum(1 for _, _, s in rows if s.get("final") == "caught"); no = sum(1 for _, _, s in rows if s.get("final") == "obsolete"); nr = sum(1 for _, _, s in rows if s.get("final") == "rejected")
+out.append(f"**{len(rows)} seeded changes; {nf} caught by the check as it stood when the change arrived, {nn} caught now, {no} made obsolete by a repair of the unchanged tree, {nr} judged not to break the property as stated (see its note).**")
 out.append("")
 out.append("| seeded change | property | what it breaks (needs) | first | now | caught as |")
 out.append("|---|---|---|---|---|---|")
